@@ -88,6 +88,7 @@ func c14InFlight() *Scenario {
 		entGov("gov(signers=S2;min=1)", "S2", 1, 100, "gov", 1),
 		Action{Name: "tick", Dt: ms},
 		Action{Name: "wait(1m40s)", Dt: 100 * time.Second, Enabled: func(m *model.State, _ map[string]int) bool { return elapsed(m) < 250 }},
+		upgradeAct(),
 	)
 	return s
 }
